@@ -46,6 +46,7 @@ Init(cfg) ==
      faulted |-> [c |-> FALSE, s |-> FALSE],
      panicked |-> [c |-> FALSE, s |-> FALSE],
      resetS |-> {},          \* stream ids reset / abandoned by either application or by a RST_STREAM
+     graceful |-> [c |-> FALSE, s |-> FALSE],            \* graceful_shutdown() was called
      goLast |-> [c |-> -1, s |-> -1],                   \* last-stream-id of the latest GOAWAY received
      firstEnd |-> [c |-> <<"", 0>>, s |-> <<"", 0>>],   \* first thing that ended the connection: <<kind, code>>
      v |-> <<>>, hits |-> EmptyMap]
@@ -256,7 +257,13 @@ FinalQ(a, e, l, ws) ==
         a5 == IF a.coop /\ noErr /\ unblocked /\ clean /\ a.resetS # {} /\ ~a.panicked["c"] /\ ~a.panicked["s"]
               THEN Check(a4, "C17.others_undisturbed", others = {}, l, "", 0, [j \in others |-> e.out[j]])
               ELSE a4
-    IN a5
+        \* C15: graceful shutdown drains the streams in flight and then closes the connection
+        idleEps == {ep \in DOMAIN ws : a.graceful[ep] /\ ~e.wblocked[ep] /\ ~ws[ep].tainted /\ a.firstEnd[ep][1] = ""
+                                        /\ ~\E j \in 1..Len(e.out) : e.out[j].ep = ep}
+        a6 == IF idleEps # {} /\ (\A x \in idleEps : ~a.real[Other(x)])     \* (the scripted peer acknowledges every PING)
+              THEN Check(a5, "C15.graceful_completes", \A ep \in idleEps : e.conn[ep] = "done", l, "", 0, [ep \in idleEps |-> e.conn[ep]])
+              ELSE a5
+    IN a6
 
 \* C16 (f) / C06: capacity that nobody holds reaches a stream that can use it. At a quiescence (a census of every
 \* capacity() precedes it): if stream s has data accepted by send_data and not yet written, its stream credit and the
@@ -286,6 +293,7 @@ ConnEnd(a, e) ==
 GoAwayApi(a, e, l, ws) ==
     LET ep == e.ep IN
     IF ep \notin DOMAIN ws THEN a
+    ELSE IF e.call = "graceful_shutdown" THEN [a EXCEPT !.graceful[ep] = TRUE]
     ELSE IF e.call = "send_request" /\ e.res = "ok" /\ ws[ep].goInBound
     THEN Viol(Hit(a, "C15.no_request_after_goaway"), "C15.no_request_after_goaway", l, ep, e.sid, "send_request accepted after a GOAWAY had been received and processed")
     ELSE IF e.call = "send_request" /\ e.res = "err" /\ ws[ep].goInBound THEN Hit(a, "C15.no_request_after_goaway")
